@@ -12,7 +12,8 @@ from ..codecs import MODELLED, py_equal, impl_answer_dec
 from ..extend import extend, project
 from ..gen import Gen, Opts, module_text, ty_sx, val_sx, is_modelled
 
-CODECS = ['ber', 'der', 'per', 'uper', 'oer', 'jer', 'xer']
+LEVEL = "exploration"
+CODECS = ["ber", "der", "per", "uper", "oer", "jer", "xer"]
 
 
 def has_none_in_list(t, v):
